@@ -96,7 +96,7 @@ def check_C01(ctx):
     if ctx.quick:
         shards, st = gen_steps(ctx, ["-shards", 16, "-M", "5,8", "-reps", 3, "-big", "70001", "-bign", 48])
     else:
-        shards, st = gen_steps(ctx, ["-shards", 64, "-M", "3,5,7,8,11,16,32", "-reps", 6, "-exhaustive", "3,4", "-big", "70001,100003", "-bign", 96])      # (TLC needs seconds per step on such cores: 300 007 cells took over an hour for 320 steps)
+        shards, st = gen_steps(ctx, ["-shards", 64, "-M", "3,5,7,8,11,16,32", "-reps", 6, "-exhaustive", "3,4", "-big", "70001,100003,300007", "-bign", 120])
         s2, st2 = gen_steps(ctx, ["-shards", 8, "-M", "8000", "-reps", 1], name="big")
         # big cores: only a sample of forms (files are large)
         shards += s2
